@@ -12,6 +12,10 @@ Checks that the Rust *types alone* discharge (e.g. `u32::from(u16) * 32 + u32::f
 (`format_volume` / the hook) maps to `InvalidInput`.
 
 Own minimal copy of the BPB record (`FBpb`), its serialisation and `validate`; to be unified with `Model/Bpb.lean`.
+
+Follows /repo at 6c58f9d, i.e. WITH the repairs 46e44d0 (`sectors_per_cluster_32 == 0` ⇒ `InvalidInput`; was F11),
+faa778e (`validate_total_sectors` checks the region sum in `u64` first; FAT capacity computed in `u64`) and
+f22ffae (FAT32: cluster count ≤ 0x0FFFFFF4, root cluster inside the volume).
 -/
 namespace FatVerif.Format
 
@@ -164,7 +168,8 @@ def effectiveBpc (o : FormatOpts) (total : Nat) : Except Err Nat :=
 def determineFsLayout (o : FormatOpts) (total : Nat) : Except Err FsLayout :=
   effectiveBpc o total >>= fun bpc =>
   chkDiv bpc o.bps >>= fun spc32 =>
-  if 255 < spc32 then .error .invalidInput      -- u8::try_from
+  if spc32 = 0 then .error .invalidInput        -- "Cluster size cannot be smaller than sector size" (fix of F11)
+  else if 255 < spc32 then .error .invalidInput -- u8::try_from
   else tryTypes total o.bps spc32 o.rootEntries o.fats (allowedTypes o.fatType)
 
 /-! ## BPB -/
@@ -298,6 +303,8 @@ def validateTotalSectors (b : FBpb) : Except Err Unit :=
   if b.isFat32 ∧ b.totalSectors16 ≠ 0 then .error .corrupted
   else if b.totalSectors16 = 0 ∧ b.totalSectors32 = 0 then .error .corrupted
   else if b.totalSectors16 ≠ 0 ∧ b.totalSectors32 ≠ 0 ∧ b.totalSectors16 ≠ b.totalSectors32 then .error .corrupted
+  -- `first_data_sector_64 > u32::MAX` (u64 arithmetic, cannot overflow): regions too big
+  else if 4294967295 < b.reserved + b.fats * b.sectorsPerFat + b.rootDirSectors then .error .corrupted
   else
     b.firstDataSector >>= fun fds =>
     if b.totalSectors ≤ fds then .error .corrupted else .ok ()
@@ -305,18 +312,14 @@ def validateTotalSectors (b : FBpb) : Except Err Unit :=
 def validateSectorsPerFat (b : FBpb) : Except Err Unit :=
   if b.isFat32 ∧ b.spf32 = 0 then .error .corrupted else .ok ()
 
-/-- `sectors_per_fat * bytes_per_sector * 8 / bits - RESERVED_FAT_ENTRIES` in checked `u32` (only feeds a warning,
-    but the arithmetic can panic) -/
-def usableFatEntries (b : FBpb) (ft : FatType) : Except Err Nat :=
-  chkMul32 b.sectorsPerFat b.bps >>= fun x =>
-  chkMul32 x 8 >>= fun y =>
-  chkSub (y / ft.bits) 2
-
+/-- `validate_total_clusters`. The FAT-capacity comparison at its end is computed in `u64` with `saturating_sub`
+    (it cannot overflow: `u32 * u16 * 8 < 2^64`) and only feeds a warning, so it is not modelled. -/
 def validateTotalClusters (b : FBpb) : Except Err Unit :=
   b.totalClusters >>= fun cl =>
   if b.isFat32 ≠ (FatType.fromClusters cl == .fat32) then .error .corrupted
-  else if FatType.fromClusters cl = .fat32 ∧ 0x0FFFFFFF < cl then .error .corrupted
-  else usableFatEntries b (FatType.fromClusters cl) >>= fun _ => .ok ()
+  else if FatType.fromClusters cl = .fat32 ∧ 0x0FFFFFF4 < cl then .error .corrupted
+  else if b.isFat32 ∧ (b.rootCluster < 2 ∨ cl ≤ b.rootCluster - 2) then .error .corrupted
+  else .ok ()
 
 /-- `BiosParameterBlock::validate` -/
 def validateBpb (b : FBpb) : Except Err Unit :=
